@@ -159,6 +159,12 @@ def impl_blocks(s):
 
 
 def impl_matches(header, typ, trait=None):
+    if trait is not None and "<" in trait:
+        raw = re.sub(r"\s+", "", re.sub(r"\bwhere\b.*", "", header, flags=re.S))
+        want = re.sub(r"\s+", "", trait) + "for"
+        if want not in raw:
+            return False
+        trait = trait.split("<")[0]
     h = strip_generics(header)
     h = re.sub(r"\bwhere\b.*", "", h, flags=re.S).strip()
     if " for " in h:
